@@ -83,6 +83,13 @@ def classify_cond(f, a, lab, P):
             return "excl:" + str(c.arg_str(1))
         if c.name == "any" and outcome == "false":
             return "excl:any"
+        # the same test written as a loop over the path's components: `component == "target"` false for every component
+        if c.name in ("eq", "ne") and len(c.args) == 2 and outcome == ("false" if c.name == "eq" else "true"):
+            lit = c.arg_lit(1, P) or c.arg_lit(0, P)
+            if lit is not None:
+                return "excl:=" + lit
+        if c.name == "next" and "walkdir" not in (c.self_ty or "") and ("Components" in (c.self_ty or "") or "option::IntoIter" in (c.self_ty or "") or "Flatten" in (c.self_ty or "") or "FlatMap" in (c.self_ty or "")):
+            return "iter"
     return "other:%s=%s" % (txt, outcome)
 
 
@@ -207,7 +214,7 @@ def check(ctx):
         for c in ins:
             cats = sorted(classify_cond(f, a, lab, P) for (a, lab) in f.edge_dominators(c.bb))
             need = {"walk", "entry-ok", "is_file", "ext", "read-ok", "parse-ok"}
-            have = set(cats)
+            have = set(cats) - {"iter"}
             excl = {x for x in have if x.startswith("excl:")}
             other = {x for x in have if x.startswith(("other:", "try:"))}
             miss = need - have
@@ -217,11 +224,14 @@ def check(ctx):
             else:
                 r3.ok("insert under exactly %s" % sorted(have))
             heads = [x.bb for x in f.calls if x.name == "next" and "walkdir" in (x.self_ty or "")]
+            excl_seen = set()
             if heads:
                 body_entry = f.blocks[heads[0]]["term"].get("target")
                 extra = []
                 for (b, keep, lose) in f.filter_branches(body_entry, c.bb, stops=heads):
                     cat = classify_cond(f, b, keep[0], P)
+                    if cat.startswith("excl:"):
+                        excl_seen.add(cat)
                     if cat.startswith(("other:", "try:")):
                         o, outcome = f.cond_struct(b, keep[0])
                         if o[0] == "multi":
@@ -232,7 +242,8 @@ def check(ctx):
                              "branches on %s can divert a file away from the cache insert" % extra, c.file, c.line))
                 else:
                     r3.ok("every branch between a directory entry and the insert is one of the documented tests")
-            if excl in ({"excl:/target/", "excl:/.git/"}, {"excl:any"}):
+            excl = excl | excl_seen
+            if excl in ({"excl:/target/", "excl:/.git/"}, {"excl:any"}, {"excl:=target", "excl:=.git"}):
                 r3.ok("exclusions: %s" % sorted(excl))
             else:
                 r3.bad(V(r3.id, f.id, "exclusions:%s" % ",".join(sorted(excl)), "exclusion tests are %s (expected target/ and .git/)" % sorted(excl), c.file, c.line))
@@ -255,8 +266,9 @@ def check(ctx):
             r3.bad(V(r3.id, f.id, "extension-literal", "the extension test does not compare with \"rs\""))
         # exclusion literals when expressed through a closure
         lits = set()
-        for k2, g in P.fns.items():
-            if k2 == f.id or k2.startswith(f.id + "::{"):
+        for k2 in P.family(f.id):
+            g = P.fns[k2]
+            if True:
                 for s_ in g.const_strs():
                     if s_ in ("target", ".git", "/target/", "/.git/") or re.match(r"^/?\.?[a-z_]+/?$", s_) and s_ not in ("rs",):
                         lits.add(s_)
@@ -274,9 +286,10 @@ def check(ctx):
         else:
             r3.bad(V(r3.id, f.id, "walk-root", "the walk does not start at the project path"))
         # PATHSHAPE of the exclusion operand: must be relative to the walk root
-        excl_calls = [cc for cc in f.calls if (cc.name == "contains" and cc.self_ty == "str" and cc.arg_str(1) in ("/target/", "/.git/")) or cc.name == "any"]
+        excl_calls = [cc for cc in f.calls if (cc.name == "contains" and cc.self_ty == "str" and cc.arg_str(1) in ("/target/", "/.git/")) or cc.name == "any"
+                      or (cc.name in ("eq", "ne") and len(cc.args) == 2 and (cc.arg_lit(1, P) or cc.arg_lit(0, P)) in ("target", ".git"))]
         for cc in excl_calls:
-            recv = f.describe_origin(f.origin(cc.args[0]), deep=6)
+            recv = f.describe_origin(f.origin(cc.args[0]), deep=12) + f.describe_origin(f.origin(cc.args[1]), deep=12) if cc.name in ("eq", "ne") else f.describe_origin(f.origin(cc.args[0]), deep=6)
             if "strip_prefix" in recv:
                 r3.ok("exclusion test on the path below the project root (%s)" % short_path(cc.best))
             else:
@@ -353,31 +366,10 @@ def check(ctx):
                 from mirlib import op_place
                 pl = op_place(d[3]["ops"][0])
                 accs = {op_place(c.args[0])["l"] for c in ext if op_place(c.args[0])}
-                # the accumulator is borrowed mutably for extend: `&mut commands`
-                acc_locals = set()
-                for c in ext:
-                    o = f.origin(c.args[0])
-                    base = op_place(c.args[0])
-                    seen = set()
-                    while base is not None and base["l"] not in seen:
-                        seen.add(base["l"])
-                        ds = f.defs.get(base["l"], [])
-                        if len(ds) == 1 and ds[0][0] == "stmt" and ds[0][3]["k"] in ("ref", "copy_for_deref"):
-                            base = ds[0][3]["place"]
-                        else:
-                            break
-                    if base is not None:
-                        acc_locals.add(base["l"])
-                src = pl
-                seen = set()
-                while src is not None and src["l"] not in seen and src["l"] not in acc_locals:
-                    seen.add(src["l"])
-                    ds = f.defs.get(src["l"], [])
-                    if len(ds) == 1 and ds[0][0] == "stmt" and ds[0][3]["k"] == "use":
-                        src = op_place(ds[0][3]["op"])
-                    else:
-                        break
-                if src is not None and src["l"] in acc_locals:
+                # the accumulator is borrowed mutably for extend: `&mut commands` (possibly handed through a helper's `&mut Vec<..>` parameter)
+                from unord import Unord
+                acc_locals = {Unord._base_local(None, f, c.args[0], depth=16) for c in ext}
+                if Unord._base_local(None, f, d[3]["ops"][0], depth=16) in acc_locals:
                     acc_ok = True
         if acc_ok:
             r4.ok("Ok(commands) is returned")
